@@ -4,9 +4,9 @@
     [fa] is the uninterpreted float arithmetic, [envf] the map from a row to the evaluation
     environment; the chunk list [cs] (the chunking of the input and its selection vectors) is
     universally quantified everywhere. *)
-From Coq Require Export Permutation.
-From GV Require Export Query.Expr Query.Stream.
-From GV Require Import Query.ProofsExpr Query.ProofsStream Query.ProofsPlan.
+From Coq Require Export Permutation Sorted.
+From GV Require Export Query.Expr Query.Stream Query.StreamAgg Query.StreamSort.
+From GV Require Import Query.ProofsExpr Query.ProofsStream Query.ProofsPlan Query.ProofsAgg Query.ProofsSort.
 Open Scope Z_scope.
 
 (** ** predicates *)
@@ -216,6 +216,165 @@ Theorem range_path_refuted : exists tab rows p, bpred p = true /\
 Proof. exact range_path_refuted_l. Qed.
 Print Assumptions range_path_refuted.
 
+(** ** clauses stacked on one input *)
+Theorem clauses_in_order : forall fa envf p s n cs, Forall small_chunk cs ->
+  rows_of (drain_limit n (drain_skip s (drain_distinct (drain_filter fa envf p cs))))
+  = firstn (Z.to_nat n) (skipn (Z.to_nat s) (dedup_from [] (filter (row_passes fa envf p) (rows_of cs)))).
+Proof. exact clauses_in_order_l. Qed.
+Print Assumptions clauses_in_order.
+
+(** ** the prepared repairs of the open findings K2, K3, K5 meet the specification
+       (transcriptions [_fix] of proposed-fixes/C11-*.diff; not the code of /repo yet) *)
+Theorem distinct_fix_spec : forall cs, rows_of (drain_distinct_fix cs) = dedup_from [] (rows_of cs).
+Proof. exact distinct_fix_spec_l. Qed.
+Print Assumptions distinct_fix_spec.
+
+Theorem distinct_fix_conservative : forall cs, Forall small_chunk cs ->
+  rows_of (drain_distinct_fix cs) = rows_of (drain_distinct cs).
+Proof. exact distinct_fix_same_small. Qed.
+Print Assumptions distinct_fix_conservative.
+
+Theorem gql_window_fix : forall l ord s n rows, window_query_fix l ord s n rows = window_spec ord s n rows.
+Proof. exact window_fix_l. Qed.
+Print Assumptions gql_window_fix.
+
+Theorem gql_count_fix : forall l s n rows, Forall (fun r => nonnull_at 0 r = true) rows ->
+  count_query_fix l s n rows = count_spec s n rows.
+Proof. exact count_fix_l. Qed.
+Print Assumptions gql_count_fix.
+
+Theorem return_distinct_fix : forall rows, return_distinct_query_fix rows = dedup_from [] rows.
+Proof. exact return_distinct_fix_l. Qed.
+Print Assumptions return_distinct_fix.
+
+(** ** Sort *)
+Theorem sort_comparator_antisym : forall keys a b, rows_cmp keys b a = - rows_cmp keys a b.
+Proof. exact rows_cmp_antisym. Qed.
+Print Assumptions sort_comparator_antisym.
+
+Theorem sort_spec : forall keys cs,
+  let rows := rows_of cs in
+  let out := rows_of (drain_sort keys cs) in
+  Permutation out rows
+  /\ ((forall a b c, In a rows -> In b rows -> In c rows ->
+         rows_cmp keys a b <= 0 -> rows_cmp keys b c <= 0 -> rows_cmp keys a c <= 0) ->
+      StronglySorted (fun a b => rows_cmp keys a b <= 0) out
+      /\ forall x, In x rows -> filter (ties (rows_cmp keys) x) out = filter (ties (rows_cmp keys) x) rows).
+Proof. exact sort_spec_l. Qed.
+Print Assumptions sort_spec.
+
+(** on key columns of Int64 values, NULLs and missing values nothing is assumed *)
+Theorem sort_spec_int_keys : forall keys cs, int_keyed keys (rows_of cs) = true ->
+  let rows := rows_of cs in
+  let out := rows_of (drain_sort keys cs) in
+  Permutation out rows
+  /\ StronglySorted (fun a b => rows_cmp keys a b <= 0) out
+  /\ forall x, In x rows -> filter (ties (rows_cmp keys) x) out = filter (ties (rows_cmp keys) x) rows.
+Proof. exact sort_spec_int_keys_l. Qed.
+Print Assumptions sort_spec_int_keys.
+
+Theorem sort_batches : forall keys cs,
+  rows_of (drain_sort keys cs) = sort_by (rows_cmp keys) (rows_of cs)
+  /\ Forall small_chunk (drain_sort keys cs).
+Proof. exact drain_sort_l. Qed.
+Print Assumptions sort_batches.
+
+Theorem sorted_window : forall keys s n cs,
+  rows_of (drain_limit n (drain_skip s (drain_sort keys cs)))
+  = firstn (Z.to_nat n) (skipn (Z.to_nat s) (sort_by (rows_cmp keys) (rows_of cs))).
+Proof. exact sorted_window_l. Qed.
+Print Assumptions sorted_window.
+
+Theorem sort_consistency_decidable : forall cmp rows, cmp_consistent cmp rows = true ->
+  forall a b c, In a rows -> In b rows -> In c rows -> cmp a b <= 0 -> cmp b c <= 0 -> cmp a c <= 0.
+Proof. exact cmp_consistent_trans. Qed.
+Print Assumptions sort_consistency_decidable.
+
+(** ** aggregates beyond COUNT *)
+Theorem group_fold : forall m gcols aggs rows,
+  let gs := hash_groups2 m gcols aggs rows in
+  NoDup (map fst gs) /\ (forall k, In k (map fst gs) <-> In k (map (group_key gcols) rows))
+  /\ (forall k sts, In (k, sts) gs -> sts = fold_aggs m aggs (filter (keyeqb gcols k) rows)).
+Proof. exact hash_groups2_spec_l. Qed.
+Print Assumptions group_fold.
+
+Theorem count_star_general : forall m cs,
+  simple_agg2 m [FCountStar] [TInt] cs = Ok [[VInt (Z.of_nat (length (rows_of cs)))]].
+Proof. exact count_star2_l. Qed.
+Print Assumptions count_star_general.
+
+Theorem sum_spec : forall c cs,
+  let vs := col_vals c (rows_of cs) in
+  forallb sum_dom vs = true -> partial_ok (- two63) (two63 - 1) 0 (ints_of_vals vs) = true ->
+  simple_agg2 Checked [FSum c] [TInt] cs = Ok [[VInt (zsum (ints_of_vals vs))]].
+Proof. exact sum_spec_l. Qed.
+Print Assumptions sum_spec.
+
+Theorem sum_overflow_refuted : exists cs,
+  simple_agg2 Checked [FSum 0%nat] [TInt] cs = Panic
+  /\ simple_agg2 Wrapping [FSum 0%nat] [TInt] cs = Ok [[VInt (- two63)]].
+Proof. exact sum_overflow_refuted_l. Qed.
+Print Assumptions sum_overflow_refuted.
+
+Theorem avg_spec : forall m c cs,
+  let vs := col_vals c (rows_of cs) in
+  let l := ints_of_vals vs in
+  forallb sum_dom vs = true -> forallb (fun i => Z.abs i <=? two53) l = true ->
+  partial_ok (- two53) two53 0 l = true ->
+  simple_agg2 m [FAvg c] [TFloat] cs
+  = Ok [[match l with [] => VNull | _ => VFloat (f_of_ratio (zsum l) (Z.of_nat (length l))) end]].
+Proof. exact avg_spec_l. Qed.
+Print Assumptions avg_spec.
+
+Theorem min_spec : forall m c cs,
+  let vs := col_vals c (rows_of cs) in
+  all_ints vs = true ->
+  simple_agg2 m [FMin c] [TInt] cs
+  = Ok [[match zmin_list (ints_of_vals vs) with Some z => VInt z | None => VNull end]].
+Proof. exact min_spec_l. Qed.
+Print Assumptions min_spec.
+
+Theorem max_spec : forall m c cs,
+  let vs := col_vals c (rows_of cs) in
+  all_ints vs = true ->
+  simple_agg2 m [FMax c] [TInt] cs
+  = Ok [[match zmax_list (ints_of_vals vs) with Some z => VInt z | None => VNull end]].
+Proof. exact max_spec_l. Qed.
+Print Assumptions max_spec.
+
+Theorem min_max_meaning : forall l z,
+  (zmin_list l = Some z -> In z l /\ forall x, In x l -> z <= x)
+  /\ (zmax_list l = Some z -> In z l /\ forall x, In x l -> x <= z).
+Proof. intros; split; [apply zmin_list_spec|apply zmax_list_spec]. Qed.
+Print Assumptions min_max_meaning.
+
+Theorem collect_spec : forall m c cs,
+  simple_agg2 m [FCollect c] [TAny] cs = Ok [[VList (col_vals c (rows_of cs))]].
+Proof. exact collect_spec_l. Qed.
+Print Assumptions collect_spec.
+
+Theorem first_last_spec : forall m c cs,
+  let vs := col_vals c (rows_of cs) in
+  simple_agg2 m [FFirst c; FLast c] [TAny; TAny] cs
+  = Ok [[match vs with [] => VNull | v :: _ => v end; match vs with [] => VNull | _ => last vs VNull end]].
+Proof. exact first_last_spec_l. Qed.
+Print Assumptions first_last_spec.
+
+Theorem typed_result_faithful : forall t v, type_okb t v = true -> push_typed t v = v.
+Proof. exact push_typed_ok. Qed.
+Print Assumptions typed_result_faithful.
+
+Theorem min_string_typed_refuted : exists cs v,
+  simple_agg2 Checked [FMin 0%nat] [TAny] cs = Ok [[v]] /\ v <> VInt 0
+  /\ simple_agg2 Checked [FMin 0%nat] [planner_type (FMin 0%nat)] cs = Ok [[VInt 0]].
+Proof. exact min_string_typed_refuted_l. Qed.
+Print Assumptions min_string_typed_refuted.
+
+Theorem aggregate_result_types_fix : forall f v,
+  match f with FCountStar | FCount _ | FAvg _ => True | _ => push_typed (planner_type_fix f) v = v end.
+Proof. exact planner_type_fix_ok. Qed.
+Print Assumptions aggregate_result_types_fix.
+
 (** non-vacuity: the hypotheses are met by non-trivial inputs *)
 Example nv_bpred : bpred (EBin And (EBin Lt (EBin Add (EVar 0) (ELit (VInt 1))) (ELit (VInt 5))) (EUn Not (EVar 1))) = true
                    /\ bpred (EBin InList (EVar 0) (EList [ELit (VInt 1)])) = true.
@@ -230,4 +389,20 @@ Proof. repeat constructor; cbn; lia. Qed.
 Example nv_sel_free : sel_free (scan_chunks (int_rows 5)) = true.
 Proof. reflexivity. Qed.
 Example nv_scalar : forallb key_scalar [VNull; VBool true; VInt (-1); VStr [97]] = true.
+Proof. reflexivity. Qed.
+Example nv_sum : let cs := [mkChunk [[VInt 3]; [VNull]; [VStr [97]]; [VInt (-5)]] (Some [0; 1; 2; 3])] in
+  forallb sum_dom (col_vals 0 (rows_of cs)) = true
+  /\ partial_ok (- two63) (two63 - 1) 0 (ints_of_vals (col_vals 0 (rows_of cs))) = true
+  /\ simple_agg2 Checked [FSum 0%nat] [TInt] cs = Ok [[VInt (-2)]].
+Proof. repeat split. Qed.
+Example nv_avg : simple_agg2 Checked [FAvg 0%nat] [TFloat] [mkChunk [[VInt 1]; [VInt 2]] None] = Ok [[VFloat 4609434218613702656]].
+Proof. reflexivity. Qed.
+Example nv_sort_transitive :
+  cmp_consistent (rows_cmp [mkSKey 0 Desc NullsLast; mkSKey 1 Asc NullsFirst])
+    [[VInt 2; VStr [98]]; [VNull; VStr [97]]; [VInt 1; VNull]; [VInt 2; VStr [97]]] = true.
+Proof. reflexivity. Qed.
+Example nv_sort_not_transitive_on_mixed_types :
+  cmp_consistent (rows_cmp [mkSKey 0 Asc NullsLast]) [[VInt 1]; [VStr [97]]; [VInt 0]] = false.
+Proof. reflexivity. Qed.
+Example nv_int_keyed : int_keyed [mkSKey 0 Desc NullsLast; mkSKey 2 Asc NullsFirst] [[VInt 2; VStr [98]]; [VNull; VStr [97]; VInt 1]] = true.
 Proof. reflexivity. Qed.
